@@ -176,8 +176,18 @@ impl RtpsWriterProxy {
     let mut known_iter = known.iter();
     let mut known_head = known_iter.next();
 
+    // A SequenceNumberSet can carry at most this many numbers, counting from
+    // the first missing one. There is no point in listing more than that, and
+    // the advertised range comes from the network, so it can be arbitrarily wide.
+    let max_listed = SequenceNumber::from(256);
+
     // Iterate over all SequenceNumbers (indices) in the advertised range.
     for s in relevant_interval {
+      if let Some(&first_missing) = missing_seqnums.first() {
+        if s >= first_missing + max_listed {
+          break;
+        }
+      }
       match known_head {
         None => missing_seqnums.push(s), // no known changes left => s is missing
         Some(known_sn) => {
